@@ -441,6 +441,9 @@ class Parser:
         token = self.current_token
         if str(token) in '{[':
             return True
+        if token.is_a(TokenTypes.MARK) and str(token) == '-':
+            # A negative number; _rvalue() rejects a minus before anything else.
+            return True
         if token.token_type in (
                 TokenTypes.LITERAL_STRING,
                 TokenTypes.NUMBER):
